@@ -1,4 +1,5 @@
 import Properties.C18
+import Properties.C18Order
 #print axioms Hive.C18.processing_order
 #print axioms Hive.C18.plugs_never_freed_in_queue_phase
 #print axioms Hive.C18.charging_needs_free_plug
@@ -7,3 +8,5 @@ import Properties.C18
 #print axioms Hive.C18.fifo_enabled
 #print axioms Hive.queue_turn_succeeds
 #print axioms Hive.concrete_envCongr
+#print axioms Hive.C18.idx_lt_of_split
+#print axioms Hive.C18.order_monitor_silent
